@@ -657,10 +657,31 @@ func Go(fn func()) {
 	<-reg
 }
 
+// FreeRunning is set by the free-running pass of engine A (explore -free): the harness threads run as
+// ordinary goroutines under the race detector, no scheduler is active.
+var FreeRunning bool
+
+var (
+	freeMu    sync.Mutex
+	freeOwner int64
+)
+
 // Atomic runs fn without scheduling points (a macro step).
 func Atomic(fn func()) {
 	t := Cur()
 	if t == nil {
+		if FreeRunning {
+			// free-running pass (race detector): the harness' own bookkeeping is serialised by a
+			// re-entrant lock, which the cooperative scheduler otherwise makes unnecessary
+			g := goid()
+			if atomic.LoadInt64(&freeOwner) == g {
+				fn()
+				return
+			}
+			freeMu.Lock()
+			atomic.StoreInt64(&freeOwner, g)
+			defer func() { atomic.StoreInt64(&freeOwner, 0); freeMu.Unlock() }()
+		}
 		fn()
 		return
 	}
